@@ -157,6 +157,26 @@ pub struct RunRef {
 
 pub const REF_CALL_LIMIT: usize = 40_000;
 
+thread_local! {
+    /// harness-side cache of optimised rules for the handful of FIXED grammar texts (the sample
+    /// grammars are large; the code under test still parses them itself inside every world)
+    static OPT_CACHE: RefCell<BTreeMap<u64, Option<Arc<Vec<OptimizedRule>>>>> = const { RefCell::new(BTreeMap::new()) };
+}
+
+/// `parse_and_optimize` for harness purposes, cached for long (fixed) grammar texts.
+pub fn optimized(text: &str) -> Option<Arc<Vec<OptimizedRule>>> {
+    if text.len() < 600 {
+        return pest_meta::parse_and_optimize(text).ok().map(|(_, r)| Arc::new(r));
+    }
+    let key = crate::prng::fnv1a(text.as_bytes());
+    OPT_CACHE.with(|c| {
+        c.borrow_mut()
+            .entry(key)
+            .or_insert_with(|| pest_meta::parse_and_optimize(text).ok().map(|(_, r)| Arc::new(r)))
+            .clone()
+    })
+}
+
 /// Runs the plain VM with a listener that records every rule entry and never aborts.
 /// Returns None when the parse needs more than REF_CALL_LIMIT calls (workload is discarded).
 pub fn reference_run(rules: &[OptimizedRule], rule: &str, input: &str) -> Option<RunRef> {
@@ -233,19 +253,19 @@ fn reference_run_inner(rules: &[OptimizedRule], rule: &str, input: &str) -> Opti
 /// References for every `Run` command of the script, in order. None if the grammar does not
 /// load or a reference parse is too expensive.
 pub fn references(w: &Workload) -> Option<Vec<RunRef>> {
-    let (_, main_rules) = pest_meta::parse_and_optimize(&w.grammar_text).ok()?;
+    let main_rules = optimized(&w.grammar_text)?;
     let alt_rules = match &w.alt_grammar_text {
-        Some(t) => Some(pest_meta::parse_and_optimize(t).ok()?.1),
+        Some(t) => Some(optimized(t)?),
         None => None,
     };
-    let mut rules = &main_rules;
+    let mut rules: &Vec<OptimizedRule> = &main_rules;
     let mut input = w.input.clone();
     let mut out = vec![];
     for c in &w.script {
         match c {
             Cmd::LoadInput(s) => input = s.clone(),
             Cmd::LoadGrammar(alt) => {
-                rules = if *alt { alt_rules.as_ref()? } else { &main_rules };
+                rules = if *alt { alt_rules.as_deref()? } else { &main_rules };
             }
             Cmd::Run { rule, .. } => {
                 // an undefined start rule makes the VM panic ("undefined rule"): not generated
@@ -698,9 +718,9 @@ pub fn check_history(
         .filter_map(|c| if let Cmd::Run { cap, .. } = c { Some(*cap) } else { None })
         .collect();
     let rule_names = |t: &str| -> Vec<String> {
-        match pest_meta::parse_and_optimize(t) {
-            Ok((_, rules)) => rules.iter().map(|r| r.name.clone()).collect(),
-            Err(_) => vec![],
+        match optimized(t) {
+            Some(rules) => rules.iter().map(|r| r.name.clone()).collect(),
+            None => vec![],
         }
     };
     let main_rules: Vec<String> = rule_names(&w.grammar_text);
@@ -1261,7 +1281,7 @@ fn sample_docs(be: &crate::parsework::Backend) -> Vec<String> {
 
 /// one very long single line for the JSON grammar, valid or cut off (a kilobyte-sized error text)
 fn long_json_line(rng: &mut Rng) -> String {
-    let n = rng.range(700, 1500);
+    let n = rng.range(700, 1100);
     let body = format!("[{}1", "1,".repeat(n));
     if rng.chance(1, 2) {
         format!("{body}]")
@@ -1273,8 +1293,8 @@ fn long_json_line(rng: &mut Rng) -> String {
 fn doc_input(rng: &mut Rng) -> String {
     let words = ["test", "test2", "a", "b1", "x9y", "1x", "Zq", ""];
     // occasionally a long list: positions beyond one byte, hundreds of rule entries
-    let long = rng.chance(1, 25);
-    let n = if long { rng.range(60, 140) } else { rng.range(1, 4) };
+    let long = rng.chance(1, 40);
+    let n = if long { rng.range(60, 120) } else { rng.range(1, 4) };
     let mut s = String::new();
     for i in 0..n {
         if i > 0 {
@@ -1313,14 +1333,9 @@ pub fn gen_workload(rng: &mut Rng, stats: &mut GenStats) -> Option<(Workload, Ve
             _ => ("sql", "Command", crate::parsework::Backend::Sql),
         };
         let text = std::fs::read_to_string(format!("/repo/grammars/src/grammars/{file}.pest")).ok()?;
-        let names: Vec<String> = pest_meta::parse_and_optimize(&text)
-            .ok()?
-            .1
-            .iter()
-            .map(|r| r.name.clone())
-            .collect();
+        let names: Vec<String> = optimized(&text)?.iter().map(|r| r.name.clone()).collect();
         fixed_inputs = sample_docs(&be);
-        if file == "json" && rng.chance(1, 6) {
+        if file == "json" && rng.chance(1, 16) {
             fixed_inputs = vec![long_json_line(rng)];
         }
         grammar_kind = format!("sample grammar {file}.pest");
@@ -1342,9 +1357,9 @@ pub fn gen_workload(rng: &mut Rng, stats: &mut GenStats) -> Option<(Workload, Ve
     if std::env::var_os("TRACE").is_some() {
         eprintln!("gen: {text:?}");
     }
-    let rules = match pest_meta::parse_and_optimize(&text) {
-        Ok((_, r)) => r,
-        Err(_) => {
+    let rules = match optimized(&text) {
+        Some(r) => r,
+        None => {
             stats.grammars_rejected += 1;
             return None;
         }
